@@ -641,24 +641,6 @@ func evalCall(n *Node, env *Env) (any, error) {
 		}
 		return int64(len(l)), nil
 	case "list", "int_list", "ilist", "float_list", "flist":
-		if n.T == TyListText && len(args) > 0 {
-			// text elements that ALL read as numbers: whether list() keeps the
-			// texts or the numbers they spell is not documented
-			allNumeric := true
-			for _, a := range args {
-				s, ok := a.(string)
-				if !ok {
-					allNumeric = false
-					break
-				}
-				if _, err := strconv.ParseFloat(s, 64); err != nil {
-					allNumeric = false
-				}
-			}
-			if allNumeric {
-				return nil, domain("list of texts that all read as numbers")
-			}
-		}
 		ret := make([]any, len(args))
 		for i, a := range args {
 			switch n.T {
